@@ -27,6 +27,8 @@ pub struct BrokerCfg {
     pub locales: String,
     pub tune: (u16, u32, u16),
     pub eof_after_closeok: bool,
+    /// the server hangs up right behind Connection.OpenOk (same burst)
+    pub eof_after_openok: bool,
     pub log_frames: bool,
     pub log_heartbeats: bool,
 }
@@ -38,6 +40,7 @@ impl Default for BrokerCfg {
             locales: "en_US".into(),
             tune: (2047, 131072, 0),
             eof_after_closeok: false,
+            eof_after_openok: false,
             log_frames: true,
             log_heartbeats: true,
         }
@@ -224,6 +227,10 @@ impl Broker {
                 Cn::Open(_) => {
                     self.send_method(reply, 0, AMQPClass::Connection(Cn::OpenOk(connection::OpenOk {
                         known_hosts: String::new() })));
+                    if self.cfg.eof_after_openok {
+                        gev(json!({"ev":"fault","kind":"eof"}));
+                        reply.fault = Some(Fault::Eof);
+                    }
                 }
                 Cn::Close(_) => {
                     self.send_method(reply, 0, AMQPClass::Connection(Cn::CloseOk(connection::CloseOk {})));
